@@ -441,8 +441,19 @@ def dbg_shape(col, pid, rng, n, edges):
     for i in range(n):
         if i not in debug and all(j in setup for j in g0.predecessors(i)) and rng.random() < 0.2:
             setup.add(i)
-    spec = mk_sel_spec(n, edges, rng, setup=setup, debug=debug)
+    fn_names = None
+    if rng.random() < 0.3:
+        # names that are prefixes of each other (log / log1p / log1p_scaled): in one half of the cases the LATER sites - where the
+        # debug nodes are - carry the shorter names
+        rev = rng.random() < 0.5
+        fn_names = {i: "n" + "1" * ((n - i) if rev else (i + 1)) for i in range(n)}
+        col.counters["c13_shapes_with_prefix_named_functions"] += 1
+    spec = mk_sel_spec(n, edges, rng, setup=setup, debug=debug, fn_names=fn_names)
     spec["is_async"] = rng.random() < 0.25
+    for i in range(n):
+        if i not in setup and rng.random() < (0.3 if i in debug else 0.1):
+            # a constant OBJECT among the inputs (a logger, a connection): identity-sensitive, cannot be copied or pickled
+            spec["nodes"][i]["args"].append(["g", rng.choice(["OPQ_A", "OPQ_B"])])
     if n >= 3 and rng.random() < 0.4:
         # a block of the nodes (debug nodes included) lives in an inner DAG: selections then name prefixed ids, and a debug node
         # inside the inner DAG may be fed by one of its parameters
@@ -461,7 +472,7 @@ def dbg_shape(col, pid, rng, n, edges):
     ids = S.node_ids(spec)
     rp = {"kind": "dbg_case", "n": n, "edges": edges, "spec": spec, "source": S.render(spec), "debug": sorted(debug)}
     g = S.site_graph(spec)
-    roots = [i for i in range(n) if g.in_degree(i) == 0]
+    roots = [i for i in range(n) if g.in_degree(i) == 0 and not spec["nodes"][i]["args"] and not spec["nodes"][i]["kwargs"]]
     ops = [("call", {}, None)]
     for _ in range(5):
         R = rng.sample(roots, rng.randint(1, len(roots))) if roots and rng.random() < 0.3 else None
